@@ -7,6 +7,8 @@ Facts extracted (by `ast`, fail closed):
                                       ModelLoader loop, and the callbacks enter the model into all_models
   cleanup_construction_failure        outer handler: _remove_all_affected_models_in_construction(model); raise
   cleanup_resolution_failure          inner handler: remove_models_from_repositories(models, models); raise
+  model_processors_on_cached          internal_model_from_file runs the model processors also on a model taken from the
+                                      global repository (false: only inside the `if not model:` block)
   cleanup_model_processor_failure     internal_model_from_file removes the models loaded by the call when a model
                                       processor raises on a freshly loaded main model
 The bodies of the small repository functions the Coq model transcribes (load_model, remove_model,
@@ -78,7 +80,13 @@ else:
 return models""",
     "_remove_all_affected_models_in_construction": """all_affected_models = get_included_models(model)
 models_to_be_removed = list(filter(lambda x: hasattr(x, '_tx_reference_resolver'), all_affected_models))
-remove_models_from_repositories(all_affected_models, models_to_be_removed)""",
+remove_models_from_repositories(all_affected_models, models_to_be_removed)
+_abort_user_class_construction([getattr(m, '_tx_parser', None) for m in models_to_be_removed])""",
+    # user-class bookkeeping only (parsers' attr methods / collected attributes); no repository is touched
+    "_abort_user_class_construction": """for the_parser in parsers:
+    if the_parser is not None:
+        the_parser._restore_user_attr_methods()
+        the_parser._discard_user_obj_attrs()""",
     "pre_ref_resolution_callback": """filename = other_model._tx_filename
 assert filename
 filename = abspath(filename)
@@ -176,6 +184,7 @@ def translate():
     # ---------------- model.py: parse_tree_to_objgraph
     mtree, _ = parse_file("textx/model.py")
     _same(find_func(mtree, "_remove_all_affected_models_in_construction"), "_remove_all_affected_models_in_construction")
+    _same(find_func(mtree, "_abort_user_class_construction"), "_abort_user_class_construction")
     pt = find_func(mtree, "parse_tree_to_objgraph")
     outer = [s for s in pt.body if isinstance(s, ast.Try)]
     need(len(outer) == 1, "parse_tree_to_objgraph: expected one top-level try")
@@ -218,11 +227,13 @@ def translate():
         iht = _text(ih.body)
         tb = ast.unparse(inner[0])
         need("resolve_one_step()" in tb and "call_obj_processors(m._tx_metamodel, m)" in tb, "inner try no longer covers resolution and object processors")
+        # `_abort_user_class_construction(parsers)` (user-class bookkeeping) may follow the removal
         if "remove_models_from_repositories" not in iht:
-            need(iht == "raise", "inner handler changed: " + iht)
+            need(iht in ("raise", "_abort_user_class_construction(parsers)\nraise"), "inner handler changed: " + iht)
             cleanup_inner = False
         else:
-            need(iht == "remove_models_from_repositories(models, models)\nraise", "inner handler changed: " + iht)
+            need(iht in ("remove_models_from_repositories(models, models)\nraise",
+                         "remove_models_from_repositories(models, models)\n_abort_user_class_construction(parsers)\nraise"), "inner handler changed: " + iht)
             cleanup_inner = True
 
     # ---------------- metamodel.py: internal_model_from_file
@@ -233,10 +244,25 @@ def translate():
          "other_model._tx_model_repository = GlobalModelRepository(self._tx_model_repository.all_models)" in it, "metamodel callback no longer registers the model")
     need(_has(it, "if self._tx_model_repository.all_models.has_model(file_name): model = self._tx_model_repository.all_models[file_name]"), "global cache lookup changed")
     loop_txt = "for p in self._model_processors:\n    p(model, self)"
-    top_loops = [s for s in imf.body if ast.unparse(s) == loop_txt]
-    tries = [s for s in imf.body if isinstance(s, ast.Try) and _text(s.body) == loop_txt]
-    need(len(top_loops) + len(tries) == 1, "model processor loop of internal_model_from_file not found")
-    if top_loops:
+    # the loop is either at the end of the function (every returned model, also one taken from the global
+    # repository, is processed) or inside the `if not model:` block (only freshly loaded models are processed)
+    fresh_if = [s for s in imf.body if isinstance(s, ast.If) and ast.unparse(s.test) == "not model"]
+    need(len(fresh_if) == 1 and not fresh_if[0].orelse, "`if not model:` block of internal_model_from_file not found")
+    need(ast.unparse(imf.body[-1]) == "return model", "internal_model_from_file no longer ends with `return model`")
+
+    def _loops(stmts):
+        return ([s for s in stmts if ast.unparse(s) == loop_txt], [s for s in stmts if isinstance(s, ast.Try) and _text(s.body) == loop_txt])
+    top_loops, top_tries = _loops(imf.body)
+    in_loops, in_tries = _loops(fresh_if[0].body)
+    need(len(top_loops) + len(top_tries) + len(in_loops) + len(in_tries) == 1, "model processor loop of internal_model_from_file not found (or found twice)")
+    on_cached = bool(top_loops or top_tries)
+    if in_loops or in_tries:
+        fb = _text(fresh_if[0].body)
+        need(0 <= fb.find("get_model_from_str(") < fb.find("for p in self._model_processors"), "model processors must run after the load")
+    else:
+        need(imf.body.index((top_loops + top_tries)[0]) > imf.body.index(fresh_if[0]), "model processors must run after the load")
+    tries = top_tries + in_tries
+    if not tries:
         cleanup_mp = False
     else:
         mh = _bare_handler(tries[0])
@@ -244,14 +270,14 @@ def translate():
         mht = _text(mh.body)
         want = ("if loaded_models:\n    from textx.scoping import remove_models_from_repositories\n"
                 "    remove_models_from_repositories(loaded_models, loaded_models)\nraise")
-        need(mht == want, "model processor handler changed: " + mht)
+        need(mht in (want, "raise"), "model processor handler changed: " + mht)
         need("cached_ids = {id(m) for m in self._tx_model_repository.all_models}" in it and
              "loaded_models = [m for m in get_included_models(model) if id(m) not in cached_ids]" in it and
              _has(it, "if is_main_model and hasattr(model, '_tx_model_repository'): from textx.scoping import get_included_models loaded_models = [m for m") and "loaded_models = None" in it,
              "computation of the models loaded by this call changed")
         k_c, k_l, k_m = it.find("cached_ids = {id(m)"), it.find("get_model_from_str("), it.find("loaded_models = [m for m")
         need(0 <= k_c < k_l < k_m, "cached models must be recorded before the load and the loaded ones after it")
-        cleanup_mp = True
+        cleanup_mp = mht == want
 
     def b(x):
         return "true" if x else "false"
@@ -259,6 +285,7 @@ def translate():
         "From TxV Require Import Core.Base Model.RepoDefs.",
         "Definition lookup_order : list scope_src := [%s]." % "; ".join(order),
         "Definition register_before_imports : bool := %s." % b(register_before),
+        "Definition model_processors_on_cached : bool := %s." % b(on_cached),
         "Definition cleanup_construction_failure : bool := %s." % b(cleanup_outer),
         "Definition cleanup_resolution_failure : bool := %s." % b(cleanup_inner),
         "Definition cleanup_model_processor_failure : bool := %s." % b(cleanup_mp)]) + "\n")
